@@ -450,4 +450,19 @@ func execNestProbe(c *FSCase, st *Stats) (*Violation, interface{}, bool) {
 	return nil, nil, true
 }
 
+// bridgeProgs: script callbacks driven by reflection-bridged Go functions, ending
+// in every way a function can end, with and without a script try around the call.
+func bridgeProgs() []string {
+	ends := []string{"return x", "throw 'boom'", "throw 7", "throw undefined", "throw null", "throw {a:1}", "throw new TypeError('t')", "throw __mk('trap')",
+		"return {}", "return 'str'", "return undefined", "return 1.5", "return heach(1,function(y){throw 'inner'})", "null.x", "hpanic()", "(function r(){r()})()"}
+	var out []string
+	for _, e := range ends {
+		for _, call := range []string{"heach(2,function(x){%s})", "hmapstr(['a','b'],function(x){%s})", "hvoid(function(x){%s})", "[1].map(function(q){return heach(1,function(x){%s})})"} {
+			c := fmt.Sprintf(call, e)
+			out = append(out, c, "(function(){try{return "+c+"}catch(e){return 'caught:'+typeof e}})()", "(function(){try{"+c+"}finally{S=1}})()")
+		}
+	}
+	return out
+}
+
 var _ = otto.New
